@@ -11,6 +11,8 @@ EXTENDS Formatter, ExprParens, Json, IOUtils, TLCExt
 
 Lay == INSTANCE Layout
 Blk == INSTANCE Block
+SR == INSTANCE SortRequires
+Opt == INSTANCE Options
 
 Rec == ndJsonDeserialize(IOEnv.TRACE)
 
@@ -21,19 +23,33 @@ IsEvent(e) == l <= Len(Rec) /\ Rec[l].ev = e /\ l' = l + 1
 
 V(prop, what) == [p |-> prop, w |-> what, i |-> 0]
 
+SortOn(f) == Has(f.cfg, "sort_requires") /\ f.cfg.sort_requires.enabled
+
+HasDirectives(d) == Has(d, "has_directives") /\ d.has_directives
+
 (* verdicts of one event; `d` is the rendered document of the case *)
 FormatFails(d, f) ==
   (IF ~Total(d, f) THEN {V("C07", IF f.outcome \notin {"ok", "parse_error"} THEN f.outcome
                                   ELSE IF (f.outcome = "ok") # (f.in_parse = "ok") THEN "ok_mismatch"
                                   ELSE "cpu")} ELSE {}) \cup
   (IF f.outcome = "ok" /\ f.in_parse = "ok"
-   THEN (IF ~TokensKept(f) THEN {V("C02", "tokens"), V("C03", "tokens")} ELSE {}) \cup
-        (IF ~CensusKept(f) THEN {V("C03", "census")} ELSE {}) \cup
+   THEN (IF ~TokensKept(f) /\ ~SortOn(f) THEN {V("C02", "tokens"), V("C03", "tokens")} ELSE {}) \cup
+        (IF ~CensusKept(f) THEN {V("C03", "census")} \cup (IF SortOn(f) THEN {V("C12", "census")} ELSE {}) ELSE {}) \cup
         (IF Has(f, "stmts") /\ Has(f.stmts, "recs") /\ ~f.stmts.sort_on
          THEN Blk!IgnoreFails(f.stmts.recs) \cup
               (IF Has(f.stmts, "range")
                THEN Blk!RangeFails(f.stmts.recs, f.stmts.range, f.stmts.affix, f.identity)
                ELSE {})
+         ELSE {}) \cup
+        (IF Has(f, "sort") /\ Has(f.sort, "ins")
+         THEN LET hasR == Has(f.sort, "range")
+                  rg == IF hasR THEN f.sort.range ELSE [start |-> 0, has_start |-> FALSE, end |-> 0, has_end |-> FALSE]
+              IN {V(IF w \in {"out_of_range_group_sorted", "out_of_range_text_changed"} THEN "C09" ELSE "C12", w)
+                     : w \in SR!Fails(f.sort.ins, f.sort.outs, f.sort.enabled, rg, hasR)} \cup
+                 (IF SR!Drift(f.sort.ins, f.sort.outs, f.sort.enabled, rg, hasR) THEN {V("DRIFT", "sort_requires")} ELSE {})
+         ELSE {}) \cup
+        (IF Has(f, "strings_out") /\ ~Has(d, "range") /\ ~HasDirectives(d)
+         THEN {V("C11", w) : w \in Opt!QuoteFails(f.strings_out, f.cfg, FALSE)}
          ELSE {}) \cup
         (IF Has(f, "lines")
          THEN {V("C10", w) : w \in Lay!WhitespaceFails(f.lines, f.cfg, ~Has(d, "range"))}
@@ -44,10 +60,14 @@ GenExpr(d) == Has(d, "meta") /\ Has(d.meta, "src") /\ d.meta.src = "ExprParens"
 
 ReparseFails(d, f, r) ==
   (IF ~Valid(r) THEN {V("C01", "reparse")} ELSE {}) \cup
-  (IF Valid(r) /\ ~MeaningKept(r)
+  (IF Valid(r) /\ ~MeaningKept(r) /\ ~SortOn(f)
    THEN {V("C02", "meaning")} \cup (IF GenExpr(d) THEN {V("C05", "grouping")} ELSE {})
    ELSE {}) \cup
   (IF Valid(r) /\ ~MirrorAgrees(r) THEN {V("TOOL", "mirror")} ELSE {}) \cup
+  (IF Valid(r) /\ Has(r, "calls_out") /\ ~Has(d, "range") /\ ~HasDirectives(d)
+   THEN {V("C11", w) : w \in Opt!CallFails(r.calls_in, r.calls_out, f.cfg)} \cup
+        {V("C11", w) : w \in Opt!HeaderFails(r.headers_out, f.cfg)}
+   ELSE {}) \cup
   \* drift: the Impl model's prediction for generated expression cases
   (IF Valid(r) /\ GenExpr(d) /\ Has(r, "out_tree")
    THEN IF \E i \in DOMAIN d.meta.pred_c : d.meta.pred_c[i] = At(r.out_tree, d.meta.epath)
